@@ -13,6 +13,7 @@ class Tree:
         self.tmap = {}          # abstract tracker id -> real pid
         self.res = []           # real resource handles: dict(kind, path|semname)
         self.errlog = open(os.path.join(scratch, "root.err"), "w")
+        self.also = []          # findings that do not stop the replay
 
     def start_root(self, conf):
         env = dict(os.environ)
@@ -196,16 +197,18 @@ def replay(case, scratch):
             for i, want in enumerate(exp["res"]):
                 it = t.res[i].get("imp_tracker", 0)
                 if it != 0 and want["tracker"] in t.tmap and it != t.tmap[want["tracker"]]:
-                    return ("step %d %s: the lock created while process %s imported the main module was registered with tracker pid %s, "
-                            "but the tracker of its tree is pid %s (every process of a tree must report to the same tracker)"
-                            % (k + 1, op, case["owners"][i], it, t.tmap[want["tracker"]])), t
+                    if not any("imported the main module" in w for w in t.also):
+                        t.also.append("step %d %s: the lock created while process %s imported the main module was registered with tracker pid %s, "
+                                      "but the tracker of its tree is pid %s (every process of a tree must report to the same tracker)"
+                                      % (k + 1, op, case["owners"][i], it, t.tmap[want["tracker"]]))
             strays = lambda: [p for p in session_trackers(t.root.pid) if p not in t.tmap.values()]
             # (a process that ends normally with a dead tracker starts a short-lived one for its finalizers: give it time to end)
-            wait_for(lambda: not strays(), 4)
+            if not any("besides the tracker" in w for w in t.also):
+                wait_for(lambda: not strays(), 4)
             stray = strays()
-            if stray:
-                return ("step %d %s: tracker process(es) %s exist in the tree besides the tracker(s) %s its processes report to"
-                        % (k + 1, op, stray, sorted(t.tmap.values()))), t
+            if stray and not any("besides the tracker" in w for w in t.also):
+                t.also.append("step %d %s: tracker process(es) %s exist in the tree besides the tracker(s) %s its processes report to"
+                              % (k + 1, op, stray, sorted(t.tmap.values())))
             # tracker liveness
             for tid, want in exp["tAlive"].items():
                 pid = t.tmap.get(int(tid))
@@ -228,6 +231,19 @@ def replay(case, scratch):
                         what = "tracked file" if r["kind"] == "file" else "named semaphore %s" % r["semname"]
                         return "step %d %s: the %s still exists (%s) although it must be gone by now" % (k + 1, op, what,
                                                                                                            "its owner collected it" if kind == "collect" else "the processes relying on it are gone"), t
+        # what the trackers of the tree wrote: a request on a name the tracker does not know (KeyError) means that a resource
+        # was registered with one tracker and released with another; a "leaked" report is legitimate only if the history
+        # leaves a semaphore to a tracker's sweep
+        time.sleep(0.3)
+        t.errlog.flush()
+        txt = open(os.path.join(scratch, "root.err")).read()
+        killed = any(op[0] == "killtracker" for op in case["steps"])       # after a tracker was killed, names it knew are unknown to its successor
+        if "KeyError" in txt and not killed:
+            return ("end of history: a resource tracker of the tree reported a request on a name it does not know (KeyError): a semaphore "
+                    "was registered with one tracker and released with another -- reported: %s" % txt[txt.index("KeyError"):][:160].replace("\n", " ")), t
+        if "leaked semlock" in txt and not case.get("sweep_sem") and all(not r.get("exists", True) for r in exp["res"] if r["kind"] == "sem"):
+            return ("end of history: a 'leaked semlock' is reported although every semaphore of the history was properly released "
+                    "(collected, or its owner ended normally)"), t
         return None, t
     except BaseException as ex:
         return "harness: %s: %s" % (type(ex).__name__, ex), t
@@ -244,8 +260,8 @@ def main():
         os.makedirs(sc, exist_ok=True)
         why, t = replay(c, sc)
         t.cleanup()
-        if why:
-            out.append(dict(i=c["i"], why=why, steps=c["steps"], log=open(os.path.join(sc, "root.err")).read()[-600:]))
+        for w in ([why] if why else []) + list(t.also):
+            out.append(dict(i=c["i"], why=w, steps=c["steps"], log=open(os.path.join(sc, "root.err")).read()[-600:]))
         shutil.rmtree(sc, ignore_errors=True)
     json.dump(dict(n=n, out=out), open(outp, "w"))
     sys.stdout.flush()
